@@ -13,6 +13,7 @@ EXPLANATION = ("Decided from MIR: (R1) Container::_get_pack returns Ok(None) whe
                "None = missing); (R4) in Container::check the None arm of locate goes to the next pack without failing. Which contents remain "
                "readable is not decided."
                ' Added later: (R5) only the directory pack is located at open time; (R6) the only interior-mutable state of Container is the table of found packs; (R7) MayMissPack conversions keep MISSING. (R8) no binary search over the manifest\'s pack table.')
+EXPLANATION += ' Batch 11: (R9) Container::get_pack never compares the pack id with a constant (no reserved id).'
 ASSUMPTIONS = ["Path::is_file semantics", "rustc MIR construction and trait resolution"]
 
 
@@ -285,7 +286,39 @@ def r8_pack_table_is_searched_as_it_is_stored(cx):
     cx.ob("R8", "R8/pack-table-searched-linearly", not bad and n >= 2, "(reader::manifest_pack)", "no binary search over the manifest's pack table (%d linear searches / iterations)" % n)
 
 
+def r9_no_pack_id_is_special(cx):
+    """'three distinguishable outcomes ... unknown pack id' means *absent from the manifest*: pack ids are arbitrary 16-bit
+    numbers chosen by whoever wrote the manifest (the directory pack and a content pack may even share one). On the way
+    from the id to the answer, Container::get_pack compares the id with the size of its own table and asks the manifest --
+    it never compares it with a constant (a "reserved" id answered None without looking)."""
+    F = cx.F
+    f = F.one(impl_self="reader::jubako::Container", item="get_pack", closure=False)
+    b = F.deep_body(f, only=r"reader::jubako::Container::")
+    bad = []
+    n = 0
+    for i, blk in enumerate(b.blocks):
+        if blk.get("cleanup"):
+            continue
+        for st in blk["s"]:
+            if st["k"] == "assign" and st["rv"]["k"] == "bin" and st["rv"]["op"] in ("Eq", "Ne", "Lt", "Le", "Gt", "Ge"):
+                n += 1
+                for x, y in ((st["rv"]["a"], st["rv"]["b"]), (st["rv"]["b"], st["rv"]["a"])):
+                    if op_const_deep(b, y) is not None and ("param", 2) in b.origins(x) and not st.get("mb"):
+                        bad.append("line %s: pack id compared with %s" % (st.get("ln"), op_const_deep(b, y)))
+        t = blk["t"]
+        if t["k"] == "call" and call_is(t, r"cmp::PartialEq(<.*>)?>::(eq|ne)$", r"cmp::PartialOrd(<.*>)?>::(lt|le|gt|ge)$") and len(t["args"]) == 2:
+            n += 1
+            for x, y in ((t["args"][0], t["args"][1]), (t["args"][1], t["args"][0])):
+                oy = b.origins(y)
+                if ("param", 2) in b.origins(x) and oy and all(o[0] == "const" for o in oy):
+                    bad.append("line %s: pack id compared with a constant" % t.get("ln"))
+    if n < 1:
+        raise AnchorLost("Container::get_pack makes no comparison at all")
+    cx.ob("R9", "R9/get_pack/no-pack-id-is-special", not bad, f, "the pack id is compared with the table size only, never with a constant (%s)" % (bad or "none"))
+
+
 RULES = [
+    ("R9", r9_no_pack_id_is_special, 1),
     ("R8", r8_pack_table_is_searched_as_it_is_stored, 1),
     ("R7", r7_missing_survives_every_conversion, 4),
     ("R6", r6_only_found_packs_are_remembered, 1),
